@@ -389,20 +389,30 @@ func runSequential(rep *report.Report, name string, frames []fr, fragment int, d
 
 // ---------------------------------------------------------------- schedules: fetch vs rollover
 
-func fetchRace(withB bool) func(x *vrt.Exec) {
+func fetchRace(withB bool, disk bool) func(x *vrt.Exec) {
 	frames := mkFrames(16, 600, 2, false, -1, -1)
 	return func(x *vrt.Exec) {
 		scheduler.VerifReset()
+		dir, dir2 := "", ""
+		if disk {
+			dir, _ = os.MkdirTemp("", "c10race")
+			dir2, _ = os.MkdirTemp("", "c10ref")
+			defer os.RemoveAll(dir)
+			defer os.RemoveAll(dir2)
+		}
 		// reference: bytes of every sequence number in a fetch-free run of the same frames
 		ref := map[int][]byte{}
 		{
-			p := newPipeline(1, "")
+			p := newPipeline(1, dir2)
 			for _, f := range frames {
 				p.write(f)
 				for _, s := range p.pl.VerifListed() {
 					if _, ok := ref[s]; !ok {
 						r, _, _ := p.pl.Segment(s)
 						b, _ := io.ReadAll(r)
+						if c, ok := r.(io.Closer); ok {
+							c.Close()
+						}
 						ref[s] = append([]byte(nil), b...)
 					}
 				}
@@ -410,7 +420,7 @@ func fetchRace(withB bool) func(x *vrt.Exec) {
 			p.sg.Close()
 			p.pl.Close()
 		}
-		p := newPipeline(1, "")
+		p := newPipeline(1, dir)
 		half := 10
 		for _, f := range frames[:half] {
 			p.write(f)
@@ -441,22 +451,27 @@ func fetchRace(withB bool) func(x *vrt.Exec) {
 			if len(ents) == 0 {
 				return
 			}
-			r, size, err := p.pl.Segment(ents[0].seq)
-			if err != nil {
-				return // rolled out between playlist and fetch: a 404, not a wrong answer
-			}
-			var got2 []byte
-			buf := make([]byte, 4096)
-			for {
-				vrt.Yield("fetch.read-chunk") // io.Copy to a slow client
-				n, err := r.Read(buf)
-				got2 = append(got2, buf[:n]...)
+			for _, e := range []entry{ents[len(ents)-1], ents[0]} { // newest first, then the one about to roll out
+				r, size, err := p.pl.Segment(e.seq)
 				if err != nil {
-					break
+					continue // rolled out between playlist and fetch: a 404, not a wrong answer
 				}
-			}
-			if len(got2) != size || !bytes.Equal(got2, ref[ents[0].seq]) {
-				x.Failf("fetch segment-bytes-differ-from-produced", "caller %s fetched seq %d: %d bytes (declared %d) differ from the %d bytes produced for that sequence number", tok, ents[0].seq, len(got2), size, len(ref[ents[0].seq]))
+				var got2 []byte
+				buf := make([]byte, 4096)
+				for {
+					vrt.Yield("fetch.read-chunk") // io.Copy to a slow client
+					n, err := r.Read(buf)
+					got2 = append(got2, buf[:n]...)
+					if err != nil {
+						break
+					}
+				}
+				if c, ok := r.(io.Closer); ok {
+					c.Close()
+				}
+				if len(got2) != size || !bytes.Equal(got2, ref[e.seq]) {
+					x.Failf("fetch segment-bytes-differ-from-produced", "caller %s fetched seq %d: %d bytes (declared %d) differ from the %d bytes produced for that sequence number", tok, e.seq, len(got2), size, len(ref[e.seq]))
+				}
 			}
 		}
 		vrt.GoNamed("fetcher-A", func() { fetch("tA") })
@@ -476,8 +491,9 @@ func scenarios(thorough bool) []runner.Scenario {
 		p, sh = 3, 16
 	}
 	return []runner.Scenario{
-		{Name: "fetch-vs-rollover", Body: fetchRace(false), P: p, Shards: sh, Horizon: 200000},
-		{Name: "two-fetchers-vs-rollover", Body: fetchRace(true), P: p, Shards: sh, Horizon: 200000},
+		{Name: "fetch-vs-rollover", Body: fetchRace(false, false), P: p, Shards: sh, Horizon: 200000},
+		{Name: "two-fetchers-vs-rollover", Body: fetchRace(true, false), P: p, Shards: sh, Horizon: 200000},
+		{Name: "fetch-vs-rollover-disk", Body: fetchRace(false, true), P: p, Shards: sh, Horizon: 200000},
 	}
 }
 
